@@ -16,7 +16,49 @@ IT = "chalk_solve::infer::InferenceTable::"
 EX = "chalk_engine::ExClause"
 
 
+KIND_OF_CTOR = {"to_ty": "Ty", "to_ty_with_kind": "Ty", "new_ty_variable": "Ty", "aggregate_tys": "Ty",
+                "to_lifetime": "Lifetime", "new_lifetime_variable": "Lifetime", "aggregate_lifetimes": "Lifetime",
+                "to_const": "Const", "new_const_variable": "Const", "aggregate_consts": "Const"}
+
+
+def kind_preserving(ck, facts, R):
+    """K1 over every `match` on GenericArgData / VariableKind in the solver crates: an arm that builds a variable or an aggregate of a
+    definite kind builds it in the kind(s) its pattern admits."""
+    ck.rule(R, "K1 (kind tables, all of them): in every match on GenericArgData or VariableKind in chalk-ir / chalk-solve / chalk-engine / "
+               "chalk-recursive, an arm that constructs something of a definite kind (to_ty / to_lifetime / to_const, a fresh variable, "
+               "an anti-unifier result) constructs it for EVERY kind its pattern admits - `Ty(_) | Const(_) => var.to_ty()` answers a "
+               "const unknown with a type - and an arm for `VariableKind::Ty(_)` that makes an inference variable keeps the "
+               "integer / float kind of the binder (EnaVariable::to_ty_with_kind, not to_ty)")
+    n = 0
+    for crate in ("chalk_engine", "chalk_solve", "chalk_ir", "chalk_recursive"):
+        for key, b in sorted(facts.bodies(crate).items()):
+            if b.thir is None or "{" in key:
+                continue
+            th = facts.thir(key)
+            for adt in ("chalk_ir::GenericArgData", "chalk_ir::VariableKind"):
+                for m in enum_matches(th, adt):
+                    for i, arm in enumerate(m["arms"]):
+                        P = {v for v in ("Ty", "Lifetime", "Const") if any(ix == i for ix, _ in select_arms(m, V(v)))}
+                        cs = [((c.get("res") or c.get("fn") or ""), (c.get("fn") or "").split("::")[-1]) for c in calls(arm["body"])]
+                        KS = {KIND_OF_CTOR[last] for _full, last in cs if last in KIND_OF_CTOR}
+                        if not KS or not P:
+                            continue
+                        n += 1
+                        inst = "%s:%s:%s" % (short(key), adt.split("::")[-1], "|".join(sorted(P)))
+                        bad = sorted(v for v in P if v not in KS)
+                        loses = adt.endswith("VariableKind") and "Ty" in P and \
+                            any(last == "to_ty" and "EnaVariable" in full for full, last in cs) and not any(last == "to_ty_with_kind" for _f, last in cs)
+                        if bad:
+                            ck.violation(R, inst, b.where(arm.get("ln")), "the arm admits %s but constructs only %s" % (bad, sorted(KS)))
+                        elif loses:
+                            ck.violation(R, inst, b.where(arm.get("ln")), "a type binder becomes a General inference variable: the integer / float kind of the binder is lost")
+                        else:
+                            ck.ok(R, inst, "constructs %s" % sorted(KS))
+    ck.floor(R, "kinded-arms", n, 6)
+
+
 def run(ck, facts, tier):
+    kind_preserving(ck, facts, "C28.KIND-PRESERVING")
     from props.c16 import canonical_vars_shifted
     canonical_vars_shifted(ck, facts, "C28.CANONICAL-VARS-SHIFTED")
     from props.c14 import occurs_before_bind
